@@ -112,6 +112,17 @@ Theorem C14_inherited : forall w bases w', wf_world w -> reg_step w (RNewClass b
     /\ w_pin w' = w_pin w /\ w_pout w' = w_pout w.
 Proof. exact inherited. Qed.
 
+(** THE HANDLERS OF A SERVICE CLASS within ANY program (any statements before its class
+    statement, any after): what its bases had when it was created, bases left to right, then
+    what was registered on the class itself afterwards — first occurrence of each listener,
+    in that order.  (Listeners added to a base after the subclass exists are not inherited.) *)
+Theorem C14_class_handlers : forall pre bases post w1 w1' w2 e,
+  reg_run world0 pre = Some w1 -> reg_step w1 (RNewClass bases) = Some w1' -> reg_run w1' post = Some w2 ->
+  exists bs m, opt_all (map (nth_error (w_cls w1)) bases) = Some bs
+    /\ nth_error (w_cls w2) (length (w_cls w1)) = Some m
+    /\ em_get m e = dedup_first (concat (map (fun b => em_get b e) bs) ++ own_regs (length (w_cls w1)) e post).
+Proof. exact class_handlers. Qed.
+
 Theorem C14_inherited_member : forall bs b e h, Forall wf_em bs -> In b bs -> In h (em_get b e) ->
   In h (em_get (base_event_handlers bs) e).
 Proof. exact inherited_member. Qed.
@@ -195,6 +206,22 @@ Example C14_ex_registration :
   em_get (add_all [] [(Ecall, 3); (Eret_obj, 9); (Ecall, 1); (Ecall, 3); (Ecall, 2)]) Ecall = [3; 1; 2]
   /\ regs_for Ecall [(Ecall, 3); (Eret_obj, 9); (Ecall, 1); (Ecall, 3); (Ecall, 2)] = [3; 1; 3; 2]
   /\ em_get (add_listener (add_all [] [(Ecall, 3); (Ecall, 1)]) Ecall 3) Ecall = [3; 1].
+Proof. vm_compute. repeat split; reflexivity. Qed.
+
+Example C14_ex_class_handlers :
+  let pre := [RNewMgr; RNewClass []; RAdd (MSvc 0) Ecall 10; RAdd (MSvc 0) Eexc_obj 10] in
+  let post := [RAdd (MSvc 1) Ecall 11; RAdd (MSvc 1) Ecall 10; RAdd (MSvc 0) Ecall 12; RAdd (MSvc 1) Ecall 11] in
+  match reg_run world0 pre with
+  | Some w1 => match reg_step w1 (RNewClass [0%nat]) with
+               | Some w1' => match reg_run w1' post with
+                             | Some w2 => length (w_cls w1) = 1%nat /\ own_regs 1 Ecall post = [11; 10; 11]
+                                          /\ map (fun c => em_get c Ecall) (w_cls w2) = [[10; 12]; [10; 11]]
+                             | None => False
+                             end
+               | None => False
+               end
+  | None => False
+  end.
 Proof. vm_compute. repeat split; reflexivity. Qed.
 
 Example C14_ex_inherited :
